@@ -797,6 +797,49 @@ def _execute(ctx, tasks, with_model: bool, stop_at_first: bool):
             compare(ctx, task, obs, replies[a:b])
 
 
+def _count_collisions(ctx):
+    """two requests that differ ONLY in the maze count, against one cache directory, the counts large enough for the file name to abbreviate
+    them alike (1000 and 1049 are both '1.0K'): the file of the first must not be served for the second — an unfiltered request returns
+    exactly the mazes a fresh generation of ITS configuration gives. Runs in a plain child interpreter (see _Workers)."""
+    import subprocess, common as C
+    code = r"""
+import sys, json, warnings, shutil, hashlib
+warnings.filterwarnings("ignore"); sys.path.insert(0, sys.argv[1])
+from pathlib import Path
+from maze_dataset import MazeDataset, MazeDatasetConfig
+d = Path(sys.argv[2]); out = []
+def sig(ds):
+    h = hashlib.blake2b(digest_size=10)
+    for m in ds.mazes: h.update(m.connection_list.astype(bool).tobytes()); h.update(m.solution.astype("int64").tobytes())
+    return h.hexdigest()
+for a, b in json.loads(sys.argv[3]):
+    shutil.rmtree(d, ignore_errors=True)
+    for n in (a, b, a):
+        cfg = MazeDatasetConfig(name="cnt", grid_n=2, n_mazes=n, seed=5)
+        try:
+            ds = MazeDataset.from_config(cfg, local_base_path=d, do_download=False)
+            fresh = MazeDataset.generate(MazeDatasetConfig(name="cnt", grid_n=2, n_mazes=n, seed=5))
+            out.append(dict(seq=[a, b, a], n=n, got=len(ds), cfg_n=int(ds.cfg.n_mazes), same=sig(ds) == sig(fresh)))
+        except Exception as e:
+            out.append(dict(seq=[a, b, a], n=n, err=f"{type(e).__name__}: {str(e)[:120]}"))
+shutil.rmtree(d, ignore_errors=True)
+print(json.dumps(out))
+"""
+    pairs = [(1000, 1049)] if ctx.quick else [(1000, 1049), (1100, 1149), (1000, 1001)]
+    try:
+        p = subprocess.run([sys.executable, "-c", code, str(C.REPO), str(ctx.workdir / "cache_counts"), json.dumps(pairs)], capture_output=True, text=True, timeout=900)
+        res = json.loads(p.stdout.strip().split("\n")[-1])
+    except Exception as e:
+        ctx.notes.append(f"count-collision probe did not run: {type(e).__name__}: {str(e)[:100]}"); return
+    for r in res:
+        ctx.case(["count-collision", r["seq"], r["n"]], nontrivial=True); ctx.count("count_collision_requests")
+        if "err" in r:
+            ctx.violate(f"request for n_mazes={r['n']} (requests in order {r['seq']}, one cache directory, configs equal but for the count) raised {r['err']}", dict(count_collision=True, **r), key="unlisted"); return
+        if r["got"] != r["n"] or r["cfg_n"] != r["n"] or not r["same"]:
+            ctx.violate(f"request for n_mazes={r['n']} with a cache directory that already held the dataset of the same configuration under another count (requests in order {r['seq']}) "
+                        f"returned {r['got']} mazes (cfg.n_mazes {r['cfg_n']}; equal to a fresh generation: {r['same']})", dict(count_collision=True, **r), key="foreign-cache-served"); return
+
+
 def run(ctx):
     warnings.filterwarnings("ignore")
     global SPECS
@@ -810,6 +853,7 @@ def run(ctx):
     tasks = build_tasks(ctx, pristine, deep=not ctx.quick)
     ctx.exhaustive = not ctx.quick     # thorough: every truncation offset, every offset x 8 masks on the base config
     _execute(ctx, tasks, with_model=True, stop_at_first=False)
+    if not ctx.violations: _count_collisions(ctx)
 
 
 def search(ctx):
